@@ -249,5 +249,57 @@ theorem frame_parseGlonassBias (v : Values) (s s' : State) (h : parseGlonassBias
       · simp [throw, throwThe, MonadExcept.throw, MonadExceptOf.throw] at hx
   · intro e x; rfl
 
+/-! ### `SYS / PHASE SHIFT` (writes `meta["phase_shift"]…` and its own cache fields) -/
+
+theorem frame_meta_cache (s : State) (m' : Meta) (c : Cache) (h : MSame s.metaD m') : Frame s { s with metaD := m', cache := c } :=
+  ⟨rfl, rfl, rfl, rfl, rfl, rfl, rfl, h⟩
+
+theorem MSame_ps1 (m : Meta) (sy : Str) :
+    MSame m (if (m.setdefaultDict [key "phase_shift"]).has [key "phase_shift", sy] = true then m.setdefaultDict [key "phase_shift"]
+      else (m.setdefaultDict [key "phase_shift"]).set [key "phase_shift", sy] Leaf.empty) := by
+  have h0 := MSame_setdefault m [key "phase_shift"] (unprot_single (key "phase_shift") (by decide))
+  split
+  · exact h0
+  · exact h0.trans (MSame_set _ _ _ (unprot_pair _ _ (by decide)))
+
+theorem MSame_ps2 (m : Meta) (sy t corr : Str) (l : List Str) :
+    MSame m (((if (m.setdefaultDict [key "phase_shift"]).has [key "phase_shift", sy] = true then m.setdefaultDict [key "phase_shift"]
+      else (m.setdefaultDict [key "phase_shift"]).set [key "phase_shift", sy] Leaf.empty).set
+        [key "phase_shift", sy, t, key "corr"] (Leaf.text corr)).set [key "phase_shift", sy, t, key "sat"] (Leaf.list l)) :=
+  ((MSame_ps1 m sy).trans (MSame_set _ _ _ (unprot_len4 _ _ _ _))).trans (MSame_set _ _ _ (unprot_len4 _ _ _ _))
+
+theorem frame_parsePhaseShift (v : Values) (s s' : State) (h : parsePhaseShift v s = .ok s') : Frame s s' := by
+  unfold parsePhaseShift at h
+  simp only [] at h
+  obtain ⟨sysf, _, h⟩ := bind_ok' h
+  split at h
+  · obtain ⟨t0, _, h⟩ := bind_ok' h
+    obtain ⟨corr0, _, h⟩ := bind_ok' h
+    obtain ⟨c, hc, h⟩ := bind_ok' h
+    obtain ⟨sy, _, h⟩ := bind_ok' h
+    obtain ⟨sats, _, h⟩ := bind_ok' h
+    obtain ⟨old, _, h⟩ := bind_ok' h
+    obtain ⟨t, _, h⟩ := bind_ok' h
+    split at h
+    · obtain ⟨corr, _, h⟩ := bind_ok' h
+      simp only [pure, Except.pure, bind, Except.bind, Except.ok.injEq] at h
+      subst h
+      exact frame_meta_cache s _ _ (MSame_ps2 s.metaD sy t corr _)
+    · simp only [pure, Except.pure, bind, Except.bind, Except.ok.injEq] at h
+      subst h
+      exact frame_meta_cache s _ _ (MSame_ps1 s.metaD sy)
+  · obtain ⟨c, hc, h⟩ := bind_ok' h
+    obtain ⟨sy, _, h⟩ := bind_ok' h
+    obtain ⟨sats, _, h⟩ := bind_ok' h
+    obtain ⟨old, _, h⟩ := bind_ok' h
+    obtain ⟨t, _, h⟩ := bind_ok' h
+    split at h
+    · obtain ⟨corr, _, h⟩ := bind_ok' h
+      simp only [pure, Except.pure, bind, Except.bind, Except.ok.injEq] at h
+      subst h
+      exact frame_meta_cache s _ _ (MSame_ps2 s.metaD sy t corr _)
+    · simp only [pure, Except.pure, bind, Except.bind, Except.ok.injEq] at h
+      subst h
+      exact frame_meta_cache s _ _ (MSame_ps1 s.metaD sy)
 
 end Midgard.Spec.Rinex3ObsFile
